@@ -2,7 +2,13 @@
 //! `run(&Case, trace) -> RunOut`.
 
 pub mod common;
+pub mod c01;
+pub mod c02;
 pub mod c05;
+pub mod c07;
+pub mod c08;
+pub mod c09;
+pub mod c14;
 
 use crate::case::{Case, RunOut};
 use crate::rng::Rng;
@@ -27,6 +33,12 @@ pub struct Scenario {
 
 pub fn all() -> Vec<Scenario> {
     let mut v = Vec::new();
+    v.extend(c01::scenarios());
+    v.extend(c02::scenarios());
     v.extend(c05::scenarios());
+    v.extend(c07::scenarios());
+    v.extend(c08::scenarios());
+    v.extend(c09::scenarios());
+    v.extend(c14::scenarios());
     v
 }
